@@ -68,7 +68,10 @@ Inductive op :=
 | Rename (f g : string)              (* mv f g (replaces g) *)
 | EditDep (b : string)               (* edit a package the magefiles import (not a magefile) *)
 | SetVer (v : string)                (* another toolchain *)
-| Run (hashfast force gocache : bool).  (* mage [-f] target;  MAGEFILE_HASHFAST set?  `go env GOCACHE` non-empty? *)
+| Run (hashfast force gocache : bool).  (* mage [-f] target | -l | -h target;  MAGEFILE_HASHFAST set?  `go env GOCACHE` non-empty?
+                                          No field for the command: Invoke's reuse decision is the same code for running a
+                                          target, listing (-l) and help (-h): inv.List / inv.Help are only passed on to
+                                          the compiled program (RunCompiled), so [step] cannot depend on them. *)
 
 Inductive outcome :=
 | NoRun                              (* the operation was not an invocation *)
